@@ -86,7 +86,20 @@ def encCSN (x : CSN) : String :=
   let kk := if ks.isEmpty then "-" else "|".intercalate ks
   s!"{encS x.node.name};{encS x.node.id};{encS x.node.addr};{encS x.svc.sid};{encS x.svc.name};{x.svc.port};{kk}"
 
-def step (c : Cat) (toks : List String) : Cat × String :=
+/-- The model is about case-normal names (see CV/Peer.lean): a name with an upper-case ASCII letter is
+    rejected, except the fixed check id `serfHealth`. -/
+def nameNormal (s : String) : Bool := s == "serfHealth" || s.all fun ch => !ch.isUpper
+
+def tokNormal (tok : String) : Bool :=
+  (tok.split (fun ch => ch == ';' || ch == ',' || ch == '|' || ch == '~' || ch == '+')).all fun piece =>
+    let piece := piece.toString
+    if piece.startsWith "=" || piece.startsWith "x" then
+      match decS piece with
+      | some s => nameNormal s
+      | none => true
+    else true
+
+def stepN (c : Cat) (toks : List String) : Cat × String :=
   match toks with
   | ["reset"] => ({}, "ok")
   | ["dump"] => (c, dump c)
@@ -133,6 +146,9 @@ def step (c : Cat) (toks : List String) : Cat × String :=
       (c, s!"S={encList s} D={encList d}")
     | _, _, _, _, _ => (c, "bad-op")
   | _ => (c, "bad-op")
+
+def step (c : Cat) (toks : List String) : Cat × String :=
+  if toks.all tokNormal then stepN c toks else (c, "non-normal-name")
 
 def engine : Engine := { State := Cat, init := {}, step := step }
 
